@@ -136,4 +136,84 @@ Proof.
   rewrite binary_search_by_partition by (try assumption; constructor). reflexivity.
 Qed.
 
+
+(** ---- the statement of DESIGN.md section 4 ----
+    [partitioned l]: [l] is sorted consistently with the comparator and strictly (at most
+    one element compares [Equal]): all [Less] elements, then the target if present, then all
+    [Greater] ones.  Then [Ok i] iff element [i] is the target, and [Err i] iff [i] is the
+    insertion point (everything before it is ordered before the target, everything from it
+    on after the target), which is unique. *)
+Definition partitioned (l : list T) : Prop :=
+  exists L E G, l = L ++ E ++ G /\ Forall (fun x => f x = Lt) L /\ Forall (fun x => f x = Eq) E /\
+                Forall (fun x => f x = Gt) G /\ (length E <= 1)%nat.
+
+Definition insertion_point (l : list T) (i : nat) : Prop :=
+  (i <= length l)%nat /\ Forall (fun x => f x = Lt) (firstn i l) /\ Forall (fun x => f x = Gt) (skipn i l).
+
+Lemma insertion_point_unique l i j : insertion_point l i -> insertion_point l j -> i = j.
+Proof.
+  intros (Hi & Li & Gi) (Hj & Lj & Gj).
+  destruct (Nat.lt_trichotomy i j) as [Hlt|[Heq|Hgt]]; [exfalso|exact Heq|exfalso].
+  - (* element i is Greater (from i) and Less (before j) *)
+    destruct (nth_error l i) as [x|] eqn:En; [|apply nth_error_None in En; lia].
+    assert (H1 : f x = Gt).
+    { rewrite Forall_forall in Gi. apply Gi. rewrite <- (firstn_skipn i l) in En.
+      rewrite nth_error_app2 in En by (rewrite firstn_length; lia).
+      rewrite firstn_length, Nat.min_l, Nat.sub_diag in En by lia. eapply nth_error_In; exact En. }
+    assert (H2 : f x = Lt).
+    { rewrite Forall_forall in Lj. apply Lj. rewrite <- (firstn_skipn j l) in En.
+      rewrite nth_error_app1 in En by (rewrite firstn_length; lia). eapply nth_error_In; exact En. }
+    congruence.
+  - destruct (nth_error l j) as [x|] eqn:En; [|apply nth_error_None in En; lia].
+    assert (H1 : f x = Gt).
+    { rewrite Forall_forall in Gj. apply Gj. rewrite <- (firstn_skipn j l) in En.
+      rewrite nth_error_app2 in En by (rewrite firstn_length; lia).
+      rewrite firstn_length, Nat.min_l, Nat.sub_diag in En by lia. eapply nth_error_In; exact En. }
+    assert (H2 : f x = Lt).
+    { rewrite Forall_forall in Li. apply Li. rewrite <- (firstn_skipn i l) in En.
+      rewrite nth_error_app1 in En by (rewrite firstn_length; lia). eapply nth_error_In; exact En. }
+    congruence.
+Qed.
+
+Lemma partitioned_result l : partitioned l ->
+  exists L E G, l = L ++ E ++ G /\ Forall (fun x => f x = Lt) L /\ Forall (fun x => f x = Eq) E /\
+    Forall (fun x => f x = Gt) G /\ (length E <= 1)%nat /\
+    binary_search_by f l = Some (match E with [] => BErr (length L) | _ => BOk (length L) end).
+Proof.
+  intros (L & E & G & -> & HL & HE & HG & Hlen). exists L, E, G. repeat split; try assumption.
+  rewrite (binary_search_by_partition L E G HL HE HG).
+  destruct E as [|e [|e' E']]; cbn [length] in *; try lia; try reflexivity.
+  f_equal. f_equal. lia.
+Qed.
+
+Theorem binary_search_by_ok_iff l i : partitioned l ->
+  (binary_search_by f l = Some (BOk i) <-> exists x, nth_error l i = Some x /\ f x = Eq).
+Proof.
+  intros HP. destruct (partitioned_result l HP) as (L & E & G & -> & HL & HE & HG & Hlen & R).
+  rewrite R. split.
+  - destruct E as [|e E']; [discriminate|]. intros [= <-]. exists e.
+    rewrite nth_error_app2, Nat.sub_diag by lia. split; [reflexivity|]. apply Forall_inv in HE. exact HE.
+  - intros (x & En & Hx).
+    destruct (Nat.lt_ge_cases i (length L)) as [H1|H1].
+    { rewrite nth_error_app1 in En by exact H1. apply nth_error_In in En.
+      rewrite Forall_forall in HL. rewrite (HL _ En) in Hx. discriminate. }
+    rewrite nth_error_app2 in En by exact H1.
+    destruct (Nat.lt_ge_cases (i - length L) (length E)) as [H2|H2].
+    + destruct E as [|e E']; [cbn in H2; lia|]. f_equal. f_equal. cbn [length] in *. lia.
+    + rewrite nth_error_app2 in En by exact H2. apply nth_error_In in En.
+      rewrite Forall_forall in HG. rewrite (HG _ En) in Hx. discriminate.
+Qed.
+
+Theorem binary_search_by_err_iff l i : partitioned l ->
+  (binary_search_by f l = Some (BErr i) <-> insertion_point l i).
+Proof.
+  intros HP. split.
+  - destruct (partitioned_result l HP) as (L & E & G & -> & HL & HE & HG & Hlen & R).
+    rewrite R. destruct E as [|e E']; [|discriminate]. intros [= <-]. cbn [app].
+    unfold insertion_point. rewrite app_length, firstn_app, Nat.sub_diag, firstn_all, skipn_app, Nat.sub_diag, skipn_all.
+    cbn [firstn skipn app]. rewrite app_nil_r. repeat split; try assumption. lia.
+  - intros (Hi & HL & HG). rewrite <- (firstn_skipn i l) at 1.
+    rewrite (binary_search_by_absent _ _ HL HG). rewrite firstn_length, Nat.min_l by exact Hi. reflexivity.
+Qed.
+
 End BinarySearch.
